@@ -43,3 +43,14 @@ ENTRY["assumptions"] = ENTRY["assumptions"] + _dep.ASSUMPTIONS + [
     "counted by the stream as observed:amounts_sum_wraps_uint64; candidate hardening fixes/C12-deposit-amounts-sum-wrap.diff "
     "(verify_amounts_spec_fixed)"]
 ENTRY["level_text"] += _dep.LEVEL_TEXT
+
+# Fourth session: the glue of `create cluster` and `combine` (cmd/createcluster.go, cmd/combine/combine.go) is modelled:
+# Model/CreateGlue.lean, theorems Props/C12Create.lean, stream create (the real cobra command and combine.Combine, forged
+# locks, adversarial node directories). Its two findings (D-19, D-20) are repaired in /repo (fixes 5f2f8be, c6adf89).
+from vlib import snippet_C12create as _cr
+ENTRY["streams"] = ENTRY["streams"] + [_cr.STREAM]
+ENTRY["lean_props_extra"].append(_cr.EXTRA_LEAN)
+ENTRY["monitor_sigs"] = ENTRY["monitor_sigs"] + _cr.MONITOR_SIGS
+ENTRY["trusted_base"] = ENTRY["trusted_base"] + _cr.TRUSTED_BASE
+ENTRY["assumptions"] = ENTRY["assumptions"] + _cr.ASSUMPTIONS
+ENTRY["level_text"] += _cr.LEVEL_TEXT
